@@ -210,11 +210,37 @@ func (st *State) Marshal(w io.Writer) error {
 	return nil
 }
 
-// Unmarshal reads and parses a previous dump of the state.
-// All the parsed key/values are added to the store. As of now,
-// Unmarshal does not empty the existing store from any values
-// before unmarshaling from the given reader.
+// Unmarshal reads and parses a previous dump of the state. The current
+// contents of the state are fully replaced by the parsed key/values: any
+// existing entries are removed first. This is what Raft expects when it
+// restores a snapshot on top of a state which is not empty (entries which
+// were removed before the snapshot was taken must not survive).
 func (st *State) Unmarshal(r io.Reader) error {
+	q := query.Query{
+		Prefix:   st.namespace.String(),
+		KeysOnly: true,
+	}
+	results, err := st.dsRead.Query(q)
+	if err != nil {
+		return err
+	}
+	var oldKeys []ds.Key
+	for res := range results.Next() {
+		if res.Error != nil {
+			results.Close()
+			return res.Error
+		}
+		oldKeys = append(oldKeys, ds.NewKey(res.Key))
+	}
+	results.Close()
+	for _, k := range oldKeys {
+		err := st.dsWrite.Delete(k)
+		if err != nil && err != ds.ErrNotFound {
+			logger.Error("error removing existing key from datastore:", err)
+			return err
+		}
+	}
+
 	dec := codec.NewDecoder(r, st.codecHandle)
 	for {
 		var entry serialEntry
